@@ -10,6 +10,7 @@ mod refdev;
 mod rng;
 mod runner;
 
+mod c05_notify;
 mod c06_layout;
 mod cq_queue;
 
@@ -85,6 +86,7 @@ fn main() {
             let (cases, rule, exhaustive, extra) = match prop.as_str() {
                 "C06" => c06_layout::run(&ctx),
                 "C01" | "C02" | "C03" | "C04" => cq_queue::run(&ctx, &prop),
+                "C05" => c05_notify::run(&ctx),
                 _ => {
                     eprintln!("unknown property {}", prop);
                     std::process::exit(2)
